@@ -140,6 +140,40 @@ pub fn run_pv(line: &str) -> String {
                 attempt(format!("overflow_addr[{i}]"), &|| miden_verifier::verify(pinfo.clone(), si.clone(), o2.clone(), proof.clone()));
             }
         }
+        // non-canonical aliases (v + p) of outputs, overflow addresses and inputs: either the constructor
+        // refuses them or verification fails
+        const M: u64 = 0xffff_ffff_0000_0001;
+        for i in 0..ost.len() {
+            if let Some(a) = ost[i].checked_add(M) {
+                let mut v = ost.clone();
+                v[i] = a;
+                match StackOutputs::new(v, oad.clone()) {
+                    Ok(o2) => attempt(format!("stack_out_alias[{i}]"), &|| miden_verifier::verify(pinfo.clone(), si.clone(), o2.clone(), proof.clone())),
+                    Err(_) => attempt(format!("stack_out_alias[{i}]"), &|| Err(miden_verifier::VerificationError::InputNotFieldElement(0))),
+                }
+            }
+        }
+        for i in 0..oad.len() {
+            if let Some(a) = oad[i].checked_add(M) {
+                let mut v = oad.clone();
+                v[i] = a;
+                match StackOutputs::new(ost.clone(), v) {
+                    Ok(o2) => attempt(format!("overflow_addr_alias[{i}]"), &|| miden_verifier::verify(pinfo.clone(), si.clone(), o2.clone(), proof.clone())),
+                    Err(_) => attempt(format!("overflow_addr_alias[{i}]"), &|| Err(miden_verifier::VerificationError::InputNotFieldElement(0))),
+                }
+            }
+        }
+        for i in 0..inv.len() {
+            if let Some(a) = inv[i].checked_add(M) {
+                let mut v = inv.clone();
+                v[i] = a;
+                v.reverse();
+                match StackInputs::try_from_values(v) {
+                    Ok(s2) => attempt(format!("stack_in_alias[{i}]"), &|| miden_verifier::verify(pinfo.clone(), s2.clone(), so.clone(), proof.clone())),
+                    Err(_) => attempt(format!("stack_in_alias[{i}]"), &|| Err(miden_verifier::VerificationError::InputNotFieldElement(0))),
+                }
+            }
+        }
         if ost.len() > 16 {
             // drop the deepest output (and its address)
             if let Ok(o2) = StackOutputs::new(ost[..ost.len() - 1].to_vec(), oad[..oad.len() - 1].to_vec()) {
